@@ -100,6 +100,8 @@ func XStatements(level int) [][]*Node {
 	add(Let("u", T_("`http://x`")), Let("v", T_("`p  \n`")), pr(I("u"), I("v")), Let("w", S("\"// x\"")), pr(I("w")))
 	add(Func("g", nil, Let("u", S("'\"'")), Ret(T_("`  \n\n z `"))), pr(Ca(I("g"))))
 
+	add(Let("n3", N("0")), pr(Ca(Do(N("0"), "toFixed"), N("1")), Bi("==", I("n3"), Ca(Do(N("0"), "valueOf"))), Do(N("10"), "constructor"), U("-", Ca(Do(N("0"), "toFixed"), N("2")))))
+
 	if level < 1 {
 		return out
 	}
